@@ -11,11 +11,14 @@ variable {κ : Type}
 def PanicRes (r : Except Err Nat) : Prop := ∃ s, r = .error (.panic s)
 
 /-- results of two parses whose inputs end together -/
-def ResRel (tbl : Table) (fs : FlagMap) (inpW : Bytes) (δ : Nat) (K : Nat → κ → κ → Prop) (last : Bool)
+def ResRel (tbl : Table) (fs : FlagMap) (inpW : Bytes) (δ : Nat) (K : Nat → κ → κ → Prop)
+    (Loc : κ → Nat → Nat → TextType → Prop) (last : Bool)
     (ps' pw' : Parser κ) : Except Err Nat → Except Err Nat → Prop
   | .ok c, .ok c' => ∃ d', c' + d' = c + δ ∧ K d' ps'.x.sink pw'.x.sink ∧
       (last = false → PRelM tbl fs inpW d' d' 0 ps' (ps'.machine false) pw' (pw'.machine false)) ∧
-      (last = true → d' = 0)
+      (last = true → d' = 0) ∧
+      (last = false → lexStart (ps'.machine false).r = 0 ∧
+        (0 < d' → ∃ pc0, ps'.x.prevConsumed = pc0 + c ∧ Loc ps'.x.sink pc0 c (ps'.machine false).c.lastTextType))
   | .error e, .error e' => e' = e
   | _, _ => False
 
@@ -34,7 +37,7 @@ theorem plock (F : Frame inpS inpW δ) (hcl : Closed inpS inpW δ) (hops : OpsSi
     (hr : PRunsM env inpS last ps ms ps' rs) : ∀ {d skip : Nat} {pw : Parser κ} {mw : M κ},
     PRelM env.tbl fs inpW δ d skip ps ms pw mw → ms.c.isLast = last → K d ms.x.sink mw.x.sink →
     (0 < d → Loc ms.x.sink ms.x.prevConsumed (lexStart ms.r) ms.c.lastTextType) →
-    PanicRes rs ∨ ∃ pw' rw, PRunsM env inpW last pw mw pw' rw ∧ ResRel env.tbl fs inpW δ K last ps' pw' rs rw := by
+    PanicRes rs ∨ ∃ pw' rw, PRunsM env inpW last pw mw pw' rw ∧ ResRel env.tbl fs inpW δ K Loc last ps' pw' rs rw := by
   induction hr with
   | @eoi p m m' c hrun =>
     intro d skip pw mw hp hl hK hloc
@@ -46,12 +49,22 @@ theorem plock (F : Frame inpS inpW δ) (hcl : Closed inpS inpW δ) (hops : OpsSi
         | err e => exact hlo.elim
         | directive d' b' => exact hlo.elim
         | endOfInput c' =>
-          obtain ⟨_, d', h1, h2, h3, h4, h5, h6⟩ := hlo
+          obtain ⟨_, d', h1, h2, h3, h4, h5, h6, h7, h8⟩ := hlo
           right
           have hsk1 : (bump (p.store m') c).x.sink = m'.x.sink := by simp [bump, store_x]
           have hsk2 : (bump (pw.store mw') c').x.sink = mw'.x.sink := by simp [bump, store_x]
+          have hlocOut : last = false → lexStart ((bump (p.store m') c).machine false).r = 0 ∧
+              (0 < d' → ∃ pc0, (bump (p.store m') c).x.prevConsumed = pc0 + c ∧
+                Loc (bump (p.store m') c).x.sink pc0 c ((bump (p.store m') c).machine false).c.lastTextType) := by
+            intro hlast
+            subst hlast
+            obtain ⟨hk1, hl1⟩ := hrun.stable
+            have hks : isLex m'.r = dirLex p.directive := by rw [hk1]; exact hp.kindS
+            have hms : (p.store m').machine false = m' := store_machine p m' false hks (by rw [hl1]; exact hl)
+            rw [bump_machine, hms]
+            exact ⟨h8 (by rw [hl1]; exact hl), fun hd => ⟨m'.x.prevConsumed, by simp [bump, store_x], by rw [hsk1]; exact h7 hd⟩⟩
           refine ⟨_, _, PRunsM.eoi hrw, d', h1, (by rw [hsk1, hsk2]; exact h2), fun hlast => ?_,
-            fun hlast => h6 (by rw [hrun.stable.2, hl]; exact hlast)⟩
+            fun hlast => h6 (by rw [hrun.stable.2, hl]; exact hlast), hlocOut⟩
           subst hlast
           obtain ⟨hk1, hl1⟩ := hrun.stable
           obtain ⟨hk2, hl2⟩ := hrw.stable
